@@ -57,6 +57,10 @@ def load_execnet(src=None):
     _loaded["src"] = src
     _procs.install_os_wrappers()
     gc.disable()
+    # always install the line monitor (inactive unless a run has a preemption plan), so that every code
+    # object compiled by the bootstrap stub is registered no matter which run compiled it first
+    from . import trace
+    trace.setup(mods)
     return mods
 
 
@@ -81,6 +85,15 @@ class World:
                  max_time=3600.0, keep_log=False):
         self.mods = load_execnet()
         self.gb = self.mods["gb"]
+        # finalize whatever earlier runs in this OS process left behind (cycles through Task/Thread,
+        # channels, gateways) *before* this run starts, so that no Channel.__del__ of a previous world
+        # executes inside this one (it would shift the line-event count and hence the preemption points)
+        hook = sys.unraisablehook
+        sys.unraisablehook = lambda *a: None
+        try:
+            gc.collect()
+        finally:
+            sys.unraisablehook = hook
         self.knobs = dict(knobs or {})
         self.chooser = chooser or Chooser(replay=[])
         self.sched = Sched(self.chooser, strategy, max_steps=max_steps, max_time=max_time,
@@ -256,6 +269,14 @@ class World:
                         fn()
                     except Exception:  # noqa: BLE001
                         pass
+                # typing keeps every @overload-decorated function in a process-global registry; the shipped
+                # copy of gateway_base defines some, and their __globals__ would keep this whole world alive
+                # until the *next* run re-defines them (and then finalize it in the middle of that run)
+                try:
+                    import typing
+                    typing.clear_overloads()
+                except Exception:  # noqa: BLE001
+                    pass
                 gc.collect()
                 sys.stderr = saved[2]
                 sys.stdout = saved[4]
